@@ -198,15 +198,15 @@ theorem logoutMsg_plain (text : String) : Plain (logoutMsg text) := by
     split <;> simp [Msg.mk', Msg.get?, Msg.lookup, tText, tPossDupFlag]
 
 /-- `disconnect(DISCONNECTED_BROKEN_CONN, logout_message=text)` on an ACTIVE connection with transport:
-when the Logout cannot be sent the exception leaves the socket OPEN and the state unchanged (only the
-watchdog fields are reset); otherwise Logout written, socket closed, state, `on_disconnect`. -/
+when the Logout cannot be sent the exception is logged (`caught`) and the disconnect completes all the same
+(socket closed, state, `on_disconnect`); otherwise the Logout is written first. -/
 theorem disconnect_logout_active (env : Env) (c : Conn) (text : String) (ha : c.state = st_ACTIVE)
     (hs : c.sock = true) :
     disconnect env st_DISCONNECTED_BROKEN_CONN (some text) c =
       if frameLatin1 (frameOf env (cleared c) (logoutMsg text)) = false then
-        ⟨.error .encoding, cleared c, []⟩
+        ⟨.ok (), dropped c, .caught .encoding :: dropEff⟩
       else match c.journal.persist .outbound c.sess.nextOut (frameOf env (cleared c) (logoutMsg text)) with
-        | none => ⟨.error .duplicateSeqNo, burnt (cleared c), []⟩
+        | none => ⟨.ok (), dropped (burnt c), .caught .duplicateSeqNo :: dropEff⟩
         | some j => ⟨.ok (), dropped (sent c j), .write (frameOf env (cleared c) (logoutMsg text)) :: dropEff⟩ := by
   have h3 : 3 < c.state := by rw [ha]; decide
   have hsend := sendMsg_active env (cleared c) (logoutMsg text) ha hs (logoutMsg_plain text)
@@ -222,16 +222,16 @@ theorem disconnect_logout_active (env : Env) (c : Conn) (text : String) (ha : c.
   cases hl : frameLatin1 (frameOf env (cleared c) (logoutMsg text))
   · rw [hl] at hsend
     simp only [if_true] at hsend
-    rw [bind_err hsend]
-    simp
+    rw [bind_ok (swallow_err hsend)]
+    simp [cleared, hs, stateSet, dropped, dropEff, st_DISCONNECTED_BROKEN_CONN, st_ACTIVE]
   · rw [hl] at hsend
     simp only [Bool.true_eq_false, if_false] at hsend
     cases hj : c.journal.persist Dir.outbound c.sess.nextOut (frameOf env (cleared c) (logoutMsg text))
     · rw [hj] at hsend
-      rw [bind_err hsend]
-      simp
+      rw [bind_ok (swallow_err hsend)]
+      simp [burnt, cleared, hs, stateSet, dropped, dropEff, st_DISCONNECTED_BROKEN_CONN, st_ACTIVE]
     · rw [hj] at hsend
-      rw [bind_ok hsend]
+      rw [bind_ok (swallow_ok hsend)]
       simp [sent, cleared, hs, stateSet, dropped, dropEff, st_DISCONNECTED_BROKEN_CONN, st_ACTIVE]
 
 /-! ### TestRequest and application messages -/
